@@ -9,6 +9,4 @@ echo "--- demo on unpatched copy"; (cd "$S" && PYTHONPATH="$S" PYTHONDONTWRITEBY
 (cd "$S" && patch -p1 -s < "$SEED/patch.diff") || { echo "PATCH DOES NOT APPLY"; exit 3; }
 echo "--- demo on patched copy"; (cd "$S" && PYTHONPATH="$S" PYTHONDONTWRITEBYTECODE=1 /venv/bin/python -W ignore "$SEED/demo.py" 2>&1 | tail -5; echo "exit=${PIPESTATUS[0]}")
 echo "--- check $PROP ($TIER) on patched copy"
-mkdir -p /dev/shm/ev_backup && cp /verif/evidence/$PROP.json /dev/shm/ev_backup/ 2>/dev/null
-(cd /verif && VERIF_REPO="$S" PYTHONHASHSEED=0 PYTHONDONTWRITEBYTECODE=1 /venv/bin/python -m pbt.run $PROP --tier $TIER 2>&1 | grep -E "^(C[0-9]+ tier|VIOLATION|  bucket|KNOWN|HARNESS)" | cut -c1-400; echo "check exit=${PIPESTATUS[0]}")
-cp /dev/shm/ev_backup/$PROP.json /verif/evidence/ 2>/dev/null
+(cd /verif && VERIF_REPO="$S" VERIF_EVIDENCE_DIR="$S/evidence" PYTHONHASHSEED=0 PYTHONDONTWRITEBYTECODE=1 /venv/bin/python -m pbt.run $PROP --tier $TIER 2>&1 | grep -E "^(C[0-9]+ tier|VIOLATION|  bucket|KNOWN|HARNESS)" | cut -c1-400; echo "check exit=${PIPESTATUS[0]}")
